@@ -108,18 +108,22 @@ def join_count(sql, table):
 
 
 def rels_used(t):
-    """to-one relationships of Post the filter navigates at the root level (need a JOIN)."""
+    """-> {table: number of distinct to-one relationships (entity, name) leading to it that
+    the filter navigates from the Post root outside lambdas} - each needs one JOIN."""
     used = set()
 
     def walk(n, bound):
         if n[0] in ("id", "attr"):
             parts = R.path_parts(n)
-            if parts[0] not in bound and parts[0] == "author":
-                used.add("author")
-                if len(parts) > 1 and parts[1] == "country":
-                    used.add("country")
-                    if len(parts) > 2 and parts[2] == "region":
-                        used.add("region")
+            if parts[0] in bound:
+                return
+            entity = "post"
+            for seg in parts:
+                target = R.TO_ONE.get(entity, {}).get(seg)
+                if target is None:
+                    break
+                used.add((entity, seg, target))
+                entity = target
             return
         if n[0] == "lam":
             walk(n[1], bound)
@@ -129,7 +133,10 @@ def rels_used(t):
         for c in T.children(n):
             walk(c, bound)
     walk(t, frozenset())
-    return used
+    need = {}
+    for _, _, target in used:
+        need[target] = need.get(target, 0) + 1
+    return need
 
 
 def judge(ctx, graph, inst_name, kind, bname, base_fn, ordered, t, twice=False):
@@ -171,8 +178,14 @@ def judge(ctx, graph, inst_name, kind, bname, base_fn, ordered, t, twice=False):
         ctx.fail(case, "monitor fired", observed=str(e)[:300], cls=kind, sig=["monitor"])
         return
     except Exception as e:
+        keys = findings.shorthand_triggers(kind, bname, t)
+        if kind == "sqlalchemy" and "ambiguous column" in str(e) and \
+                any(len(v) > 1 for v in findings._to_one_targets(t, "post").values()):
+            # the listed mechanism only: an execution error for a filter that reaches one
+            # entity through two different to-one paths
+            keys = keys + ["sqla-same-entity-via-two-paths"]
         ctx.fail(case, "shorthand raised on a base query: " + type(e).__name__,
-                 observed=str(e)[:300], keys=findings.shorthand_triggers(kind, bname, t),
+                 observed=str(e)[:300], keys=keys,
                  cls=kind, sig=["raises", type(e).__name__, bname])
         return
     truth = {i: ev.truth(t, "post", posts[i]) for i in set(base_ids)}
@@ -199,7 +212,7 @@ def judge(ctx, graph, inst_name, kind, bname, base_fn, ordered, t, twice=False):
     base_sql_joins = {"author": 1 if "join" in bname and "unrelated" not in bname and kind == "sqlalchemy" else 0}
     for table in ("author", "country", "region"):
         n = join_count(sql, table)
-        allowed = max(base_sql_joins.get(table, 0), 1 if table in need else 0)
+        allowed = max(base_sql_joins.get(table, 0), need.get(table, 0))
         # a relationship the base already joins (by relationship, by target or with an
         # explicit ON clause) must not be joined a second time
         if kind == "django":
